@@ -48,7 +48,7 @@ add('C02', 'exploration',
     'Same simulated executions, compared with a sequential reference model of the graph (final status map, execution counters, status type), for well-formed, malformed and unmergeable task results, under many schedules and worker counts; a run that never ends leaves tasks without a final state and is reported here too.',
     SIMNOTE, 'deterministic simulation + sequential reference model of the task graph', 'DESIGN.md 4 C02', 'vsim-threads')
 add('C03', 'exploration',
-    'The simulator decides termination itself: deadlock (nothing runnable, someone unfinished), leaked workers (caller returned or raised, someone blocked forever), no progress (step budget), for acyclic and cyclic graphs, empty and pre-populated environments, malformed and unmergeable results, a second schedule() on the same backend, and a worker thread whose start() fails (injected fault); after the call the work queue must hold neither items nor unfinished counts.',
+    'The simulator decides termination itself: deadlock (nothing runnable, someone unfinished), leaked workers (caller returned or raised, someone blocked forever), no progress (step budget), for acyclic and cyclic graphs, empty and pre-populated environments, malformed and unmergeable results, a second schedule() on the same backend, a second master in another thread, cyclic jobs built through the tasks\' dependency sets, more than a thousand tasks ready at once, and a worker thread whose start() fails (injected fault); a thread that computes for ever without reaching a synchronisation point is caught by a wall-clock guard; after the call the work queue must hold neither items nor unfinished counts.',
     SIMNOTE, 'deterministic simulation with deadlock / leak detection and bounded liveness', 'DESIGN.md 4 C03', 'vsim-threads')
 
 manifest = {
